@@ -765,8 +765,8 @@ func (m *Machine) noSpec(what string) {
 
 // ---------------------------------------------------------------- merging
 
-// A store executed inside a speculative arm: only scalar stores (a term over
-// a term of the same sort) through a concrete pointer, with no access
+// A store executed inside a speculative arm: only stores of booleans (a flag
+// over a flag) through a concrete pointer, with no access
 // monitor active.  The store is carried out and logged; at the end of the
 // arm every logged cell is rolled back and its final value handed to
 // tryMerge, which writes ite(cond, then-value, else-value) when the merge
@@ -787,7 +787,10 @@ func (fr *frame) specStore(instr *ssa.Store) bool {
 		return false
 	}
 	old, _ := (*addr).(*Term)
-	if old == nil || old.kind != nv.kind || old.w != nv.w || nv.kind == KFP {
+	if old == nil || old.kind != nv.kind || old.w != nv.w || nv.kind != KBool {
+		// flags only: a merged integer field that later feeds floating-point
+		// arithmetic turns cheap concrete paths into hard solver queries
+		// (seed C15c was missed that way); integers fork as before
 		return false
 	}
 	m.logSpecStore(addr)
